@@ -74,11 +74,17 @@ class ScenUnit:
                     wall_s=time.time() - t0, log="\n".join("%s :: %s :: %s" % x for x in failed[:200]), counterexample=cx, samples=samples)
 
 
+class Abandon(Exception):
+    """this path only repeats a retry loop beyond the explored depth; it carries no new obligation"""
+
+
 def guarded(fn):
     """run a scenario body; definite misbehaviour of the real code (Finding) becomes a failed obligation"""
     def runner(path):
         try:
             return fn(path)
+        except Abandon:
+            return []
         except Finding as e:
             return [("no-ub", "fail", "%s: %s" % (e.kind, e), None)]
     return runner
